@@ -21,7 +21,8 @@ var tableFuncs = map[string]LGFunction{
 
 func tableSort(L *LState) int {
 	tbl := L.CheckTable(1)
-	sorter := lValueArraySorter{L, nil, tbl.array}
+	// the list is t[1..#t]: the array part may keep cleared slots beyond it
+	sorter := lValueArraySorter{L, nil, tbl.array[:tbl.Len()]}
 	if L.GetTop() != 1 {
 		sorter.Fn = L.CheckFunction(2)
 	}
